@@ -117,7 +117,8 @@ def run(tier):
 
     def ins_d(r):
         for s, d in r.state.doms.items():
-            if isinstance(s, tuple) and s[0] == 's' and "HashMap::<K, V, S, A>::insert(" in s[1] and s[1].endswith("#d") and sx.dom_size(d) == 1:
+            # the value the pass branches on must be the insert's own result, not something computed from it
+            if isinstance(s, tuple) and s[0] == 's' and re.match(r"^(std::)?collections::HashMap::<K, V, S, A>::insert\(", s[1]) and s[1].endswith("#d") and sx.dom_size(d) == 1:
                 return sx.dom_min(d)
         return None
 
@@ -143,6 +144,24 @@ def run(tier):
         ok = bool(rs)
         rep.ob("C10.sequence|%s" % kind.lower(), ok, ".%s is applied inside pass 2's forward item loop, between the instructions around it" % kind.lower() if ok else
                ".%s items are not handled in pass 2's item loop" % kind.lower())
+    # the item loop of pass 2 runs for every segment, whatever its type (.set/.def/.undef written in a data segment count too)
+    kb = "builder::pass2::build_pass_2"
+    if kb in P.body:
+        import rules_C16
+        bb_ = P.body[kb]
+        idom = G.dominators(bb_)
+        calls2 = [x for x, t, n, tg in P.call_sites(kb) if "builder::pass2::pass_2_internal" in tg]
+        okseg = False
+        for head, nodes in rules_C16.natural_loops(bb_).items():
+            inl = [x for x in calls2 if x in nodes]
+            if not inl:
+                continue
+            srcs = [s_ for s_, h_ in G.back_edges(bb_) if h_ == head]
+            okseg = len(calls2) == 1 and all(G.dominates(idom, inl[0], s_) for s_ in srcs)
+        rep.ob("C10.sequence|every-segment", okseg, "pass 2 walks the items of every segment, of whatever type, in order (one call per round of the segment loop)" if okseg else
+               "pass 2's item loop is not run for every segment (the call of pass_2_internal does not lie on every round of the segment loop): .set/.def/.undef written in a skipped segment type are never applied")
+    else:
+        rep.unprovable("C10.sequence|every-segment", "build_pass_2 not found")
     # .set stores the evaluated value (latest assignment wins: plain insert)
     sets = [r for r in rows2 if r.item == "Set" and r.exit == "loop"]
     okset = bool(sets) and all(any(e[0] == 'call' and e[1].endswith("::insert") and "sets" in e[2][0] and "Expr::Const(run(" in e[2][2] for e in r.events) for r in sets)
